@@ -14,7 +14,7 @@ STUBS = ["VirtualLoop", "struct/bytes/enum lowering (the TTL bytes of each Subsc
 ASSUMPTIONS = [
     "one received message with 1..2 (thorough 3) Subscribe entries; ids from {declared value, other value, wildcard constant}; TTL symbolic 0..0xFFFFFF; listener decision symbolic; channel symbolic",
     "server configurations: one running instance / wildcard instance / two instances / stopped instance / never started announcer / no instance; at most one instance matches an entry",
-    "StopSubscribe for an eventgroup nobody declares is not constrained by the statement", "variant: the matching instance is withdrawn 0..6 ms after the message (the answer already decided must still leave exactly once)",
+    "StopSubscribe for an eventgroup nobody declares is not constrained by the statement", "variants: the matching instance is withdrawn, or the subscriber's next message reveals a reboot, 0..6 ms after the message (the answer already decided must still leave exactly once)",
 ]
 REACH = {"H11": ["h11.ack", "h11.nack", "h11.stopsubscribe", "h11.multicast", "h11.stopped-meanwhile"]}
 W_I, W_M = 0xFFFF, 0xFF
@@ -54,6 +54,7 @@ def cases(tier, seed):
     for cfg in ("one", "two"):
         for e in (_ent(), _ent(eg=6), _ent(cnt=1)):
             out.append({"h": "H11", "cfg": cfg, "ents": [e], "prior": 0, "collect": 5, "stop_after": True})
+            out.append({"h": "H11", "cfg": cfg, "ents": [e], "prior": 0, "collect": 5, "reboot_after": True})
     for cfg in ("one", "two", "three"):
         for a, b in itertools.product(REPR, repeat=2):
             out.append({"h": "H11", "cfg": cfg, "ents": [a, b], "prior": 0, "collect": 5 if cfg == "two" else 0, "_w": 2})
@@ -134,6 +135,10 @@ def h11(E, M, case):
     multicast = E.flag("multicast")
     data = _message(E, ents, ttls, session)
     loop.deliver(20, lambda: prot.datagram_received(data, P, multicast), may_defer=False)
+    if case.get("reboot_after"):
+        # the subscriber's next message reveals a reboot while the answer may still be queued
+        tr2 = 20 + E.int("t_reboot", 0, 6)
+        loop.deliver(tr2, lambda: prot.datagram_received(bytes(wire.sd_message(1, 0xC0, [], [])), P, False), name="reboot")
     if case.get("stop_after"):
         # the service is withdrawn while the answer may still sit in the send collector
         ts = 20 + E.int("t_stop", 0, 6)
